@@ -27,9 +27,11 @@ def run(tier: str) -> int:
     # and FieldTrace judges the pixels; disagreements are observations
     from harness.drivers import fieldx
     fm = run_tlc("FieldMC", f"FieldMC_{tier}", workers=4, timeout=3000)
-    chk.add_model(f"FieldMC_{tier}", fm, "EXTENSION: PlayField geometry (ColumnsDisjoint, HitsInside, LinesInside, LinesNested, HitsRestOnLines, GapsAvoidNotes)")
+    chk.add_model(f"FieldMC_{tier}", fm, "EXTENSION: PlayField geometry (ColumnsDisjoint, HitsInside, LinesInside, LinesNested, HitsRestOnLines, GapsAvoidNotes, CodedSepsAreGapsWhenThin, HoldsInside)")
     if run_tlc("FieldMC", "FieldMC_sanity", workers=1, timeout=600).ok:
         chk.model_violations.append("vacuity: FieldMC_sanity (no lead) was expected to violate HitsInside")
+    if run_tlc("FieldMC", "FieldMC_sanity2", workers=1, timeout=600).ok:
+        chk.model_violations.append("vacuity: FieldMC_sanity2 (end lead not covering the hold) was expected to violate HoldsInside")
     fs = [p for p in fm.prints if isinstance(p, dict) and p.get("kind") == "field"]
     frecs = pmap(fieldx.exec_field, fs[:: max(1, len(fs) // (800 if tier == "quick" else 8000))])
     frej, _, _ = validate_traces("FieldTrace", "FieldTrace", frecs, tag=f"c20x-{tier}")
